@@ -25,10 +25,11 @@ CHECKS = {
             "pair; zero divisors must panic / give None; all (n,d) at BITS<=6, adversarial Knuth inputs (add-back, forced digit, "
             "every divisor limb length and normalisation class) elsewhere."),
     "C04": ("spec/UintMachine.tla (Canonical, NativeOK), spec/UintBits.tla CheckCmp, spec/UintCanon.tla", "TLC model-checks the register "
-            "machine UintMachine (46 public operations as actions) exhaustively at tiny widths with the invariants Canonical (closure of "
+            "machine UintMachine (57 public operations as actions) exhaustively at tiny widths with the invariants Canonical (closure of "
             "the canonical set) and NativeOK (agreement with the plain integer statements), and every explored transition is replayed "
             "on the real Uint (spec -> implementation); TLC -simulate histories at non-aligned real widths are stepped through the real "
-            "register file and compared after every step; comparison/hash events, five generator integrations, rejecting constructors "
+            "register file and compared after every step; in the other direction histories drawn by the executor's own driver are "
+            "validated step by step against the machine (spec/MachineTrace.tla, mismatch-tolerant); comparison/hash events, five generator integrations, rejecting constructors "
             "and compiled probe programs for ill-formed (BITS, LIMBS) pairs are validated by trace validation."),
     "C05": ("spec/UintBits.tla CheckShift/CheckShiftU", "Every recorded shift, rotation and arithmetic shift (methods, 80 typed "
             "operator overload forms, Uint-typed amounts of any magnitude) is validated by TLC against value*2^s mod 2^BITS, "
@@ -138,6 +139,10 @@ def main():
              "kind_free_text": "TLC exhaustive model checking and simulation of the register-machine specification; transitions and histories replayed on the real code by harness ux_mach"},
             {"name": "probes", "path": "lib/props/C19.py, lib/props/C04.py", "serves_properties": ["C04", "C19"],
              "kind_free_text": "generated probe programs compiled by cargo/rustc against the working tree (uint! literals; ill-formed Uint types)"},
+            {"name": "tlc-machine-trace", "path": "spec/MachineTrace.tla", "serves_properties": ["C04"],
+             "kind_free_text": "TLC trace validation of register-file histories chosen and executed by the implementation-side driver (ux_mach kind d) against UintMachine!Apply"},
+            {"name": "tlc-layer2", "path": "algo/", "serves_properties": ["C02", "C03", "C04", "C05", "C06", "C09", "C10", "C11", "C12", "C13", "C14", "C15", "C18"],
+             "kind_free_text": "design-level TLA+ models of the limb algorithms with the limb width as a constant (Knuth, MG10, Div, Redc, LimbShift, AddMul, InvRing, Lehmer, Pow, Root, Log, BaseConv, Fmt, Float), model-checked exhaustively by ./check --setup; they never change a check's exit code"},
             {"name": "tlc-mc", "path": "spec/MC_BigNat.tla", "serves_properties": sorted(CHECKS),
              "kind_free_text": "TLC model checking of the specification's own arithmetic against native integers"},
         ],
